@@ -106,3 +106,57 @@ func (s *SUT) ListUsers(ctx context.Context, storeID, modelID string, r LUReques
 	sort.Strings(out)
 	return out, nil
 }
+
+// BatchItem is one item of a BatchCheck.
+type BatchItem struct {
+	ID  string    `json:"id"`
+	Req m.Request `json:"req"`
+}
+
+// BatchOutcome is the per-item result: Err != "" means the item failed.
+type BatchOutcome struct {
+	Allowed bool
+	Err     string
+}
+
+// BatchCheck runs Server.BatchCheck and returns the result map by correlation id.
+func (s *SUT) BatchCheck(ctx context.Context, storeID, modelID string, items []BatchItem, consistency openfgav1.ConsistencyPreference) (map[string]BatchOutcome, error) {
+	req := &openfgav1.BatchCheckRequest{StoreId: storeID, AuthorizationModelId: modelID, Consistency: consistency}
+	for _, it := range items {
+		req.Checks = append(req.Checks, &openfgav1.BatchCheckItem{
+			CorrelationId:    it.ID,
+			TupleKey:         &openfgav1.CheckRequestTupleKey{Object: it.Req.Object, Relation: it.Req.Relation, User: it.Req.User},
+			ContextualTuples: conv.Contextual(it.Req.Contextual),
+			Context:          conv.Struct(it.Req.Ctx),
+		})
+	}
+	resp, err := s.Srv.BatchCheck(ctx, req)
+	if err != nil {
+		return nil, err
+	}
+	out := map[string]BatchOutcome{}
+	for id, r := range resp.GetResult() {
+		if e := r.GetError(); e != nil {
+			out[id] = BatchOutcome{Err: e.GetMessage()}
+			if out[id].Err == "" {
+				out[id] = BatchOutcome{Err: "error"}
+			}
+		} else {
+			out[id] = BatchOutcome{Allowed: r.GetAllowed()}
+		}
+	}
+	return out, nil
+}
+
+// Expand runs Server.Expand and returns the tree.
+func (s *SUT) Expand(ctx context.Context, storeID, modelID, object, relation string, contextual []m.Tuple) (*openfgav1.UsersetTree, error) {
+	resp, err := s.Srv.Expand(ctx, &openfgav1.ExpandRequest{
+		StoreId: storeID, AuthorizationModelId: modelID,
+		TupleKey:         &openfgav1.ExpandRequestTupleKey{Object: object, Relation: relation},
+		ContextualTuples: conv.Contextual(contextual),
+	})
+	if err != nil {
+		return nil, err
+	}
+	return resp.GetTree(), nil
+}
